@@ -471,6 +471,18 @@ def shard_strace(desc, rec):
 # ------------------------------------------------------------------------------------------------
 # C17
 # ------------------------------------------------------------------------------------------------
+def _readings(t):
+    """what a Tdf object reports through readers that open their own context"""
+    out = []
+    for f in (lambda: len(Tdf(t.file_path)) if False else None, lambda: int(t.nBytes), lambda: bool(t.has_events), lambda: bool(t.has_data3D),
+              lambda: bool(t.has_emg), lambda: bool(t.has_force_and_torque), lambda: len(t.blocks)):
+        try:
+            out.append(f())
+        except Exception as e:
+            out.append(type(e).__name__)
+    return out
+
+
 def shard_create_copy(desc, rec):
     io_audit.install()
     rng = random.Random(desc["seed"] * 47 + desc.get("shard", 0))
@@ -535,6 +547,8 @@ def shard_create_copy(desc, rec):
         import time as _t
         t0 = int(_t.time()) - 1
         err, res = None, None
+        readings_inside = None
+        src_at_copy = None
         copy_how = "outside-context"
         try:
             if which == "new":
@@ -568,6 +582,16 @@ def shard_create_copy(desc, rec):
                         except Exception:
                             pass
                         res = a.copy(target)
+                        if rng.random() < 0.5:
+                            # the original goes on changing inside the same context: what the returned object reports
+                            # (through its own implicit contexts) stays what the copy holds.  (Byte identity is judged
+                            # in the other half of the cases, where the source does not change after the copy.)
+                            src_at_copy = "source changed after the copy"
+                            try:
+                                some_mutation(a)
+                            except Exception:
+                                pass
+                            readings_inside = _readings(res)
                 else:
                     with a:
                         try:
@@ -583,6 +607,20 @@ def shard_create_copy(desc, rec):
         opens = io_audit.drain()
         io_audit.unwatch(target)
         rec.count(f"c17:{which}:{tstate}")
+        if which == "copy" and err is None and tstate == "absent" and os.path.isfile(target):
+            rec.count("oracle:C17.returned-object-reads-the-copy")
+            want_r = _readings(Tdf(target))
+            obs = [("after the call", _readings(res))]
+            if readings_inside is not None:
+                obs.append(("inside the source's context, after the source changed again", readings_inside))
+            for when_, got_r in obs:
+                if got_r != want_r:
+                    V("copy:returned-object-does-not-read-the-copy",
+                      f"[{copy_how}] {when_}: the object returned by copy() reports (len, nBytes, has_*) = {got_r}, "
+                      f"a fresh object on the copy reports {want_r}", case)
+                    break
+            if res is a or str(getattr(res, "file_path", "")) != str(Tdf(target).file_path):
+                V("copy:returned-object-does-not-read-the-copy", f"[{copy_how}] returned object is the source or points elsewhere", case)
         if tstate != "absent":
             rec.count("oracle:C17.existing-target-refused")
             if not isinstance(err, FileExistsError):
@@ -622,7 +660,7 @@ def shard_create_copy(desc, rec):
                         V("new:does-not-return-Tdf", repr(res), case)
                 else:
                     rec.count("oracle:C17.copy-identical-and-independent")
-                    if data != open(src, "rb").read():
+                    if src_at_copy is None and data != open(src, "rb").read():
                         V("copy:not-byte-identical", f"[{copy_how}] copy has {len(data)} bytes, source {os.path.getsize(src)}", case)
                     if os.path.samefile(src, target) or os.stat(src).st_ino == os.stat(target).st_ino:
                         V("copy:not-independent", "copy and original are the same file (link)", case)
@@ -756,6 +794,29 @@ def shard_create_copy(desc, rec):
             V(f"open:non-tdf-yields-data:{what}", f"context entered on a {what} file: {got}", case)
         except Exception:
             pass
+        # the same path, but the Tdf object was created (and used) while it still held a TDF file
+        open(p, "wb").write(rc.encode_container(3, []))
+        t_old = Tdf(p)
+        if i % 2:
+            with t_old:
+                pass
+        open(p, "wb").write(content)
+        rec.count("oracle:C17.open-non-tdf(object created earlier)")
+        for how_, fn_ in (("with", lambda: t_old.__enter__() and (t_old.nEntries, len(t_old.entries))), ("len(blocks)", lambda: len(t_old.blocks)),
+                          ("has_events", lambda: t_old.has_events)):
+            try:
+                got = fn_()
+                V(f"open:non-tdf-yields-data:{what}", f"{how_} through an object created while the path still held a TDF file, "
+                  f"now a {what} file: {got!r}", case)
+                break
+            except Exception:
+                pass
+            finally:
+                try:
+                    if getattr(t_old, "_inside_context", False):
+                        t_old.__exit__(None, None, None)
+                except Exception:
+                    pass
         fds = io_audit.fds_on(p)
         if fds:
             rec.count("c17:fd-left-after-refused-open(not judged)")
